@@ -9,3 +9,24 @@ import "github.com/fsnotify/fsnotify"
 // VerifWatcher exposes the fsnotify watcher so that the harness can watch a
 // sentinel file through the very same event queue (barrier between steps).
 func (cw *CertWatcher) VerifWatcher() *fsnotify.Watcher { return cw.watcher }
+
+// VerifEventHook, when set, is called by the two calls /verif's go/ast rewriter puts
+// around the handling of one event in Watch: phase "start" before the event is handled,
+// "done" after (everything the handler did for it, file reads included, is over).
+// VerifHooksInserted tells the harness whether the rewriter found the site.
+var (
+	VerifEventHook     func(phase string, name string)
+	VerifHooksInserted bool
+)
+
+func verifEventStart(ev fsnotify.Event) {
+	if f := VerifEventHook; f != nil {
+		f("start", ev.Name)
+	}
+}
+
+func verifEventDone(ev fsnotify.Event) {
+	if f := VerifEventHook; f != nil {
+		f("done", ev.Name)
+	}
+}
